@@ -114,10 +114,46 @@ def main(ctx, replay=None):
             if bad:
                 ctx.violation(f"cij extract {' '.join(args)} on T grid {tv}, P grid {pv}: {bad}", {**case, "output": r.output}, {**sig, "clause": "value"})
         ctx.sample({"case": list(picks[0][1:])})
+        long_tables(ctx, rng, tmp, extract_main)
         geotherm(ctx, rng, tmp, geo_main)
     finally:
         import shutil
         shutil.rmtree(tmp, ignore_errors=True)
+
+
+def long_tables(ctx, rng, tmp, extract_main):
+    """Grids as long as real ones (81 - 201 pressures, 31 - 101 temperatures): every row of the extraction is printed."""
+    from click.testing import CliRunner
+    for mode, nt, npp in (("T", 5, int(rng.integers(81, 202))), ("P", int(rng.integers(61, 102)), 7)):
+        d = Path(tempfile.mkdtemp(dir=tmp))
+        tv = [100.0 * i for i in range(nt)]
+        pv = [0.5 * j for j in range(npp)]
+        write_table(d / "c11s_tp_gpa.txt", tv, pv, lambda i, j, t, p: 1e6 + 1e3 * (i + 1) + (j + 1) * 1e-3 * 1000)
+        it, ip = int(rng.integers(0, nt)), int(rng.integers(0, npp))
+        args = ["-v", "c11s", "-T", repr(tv[it])] if mode == "T" else ["-v", "c11s", "-P", repr(pv[ip])]
+        for hide in (False, True):
+            ctx.count({"long_table": [mode, nt, npp], "hide_header": hide})
+            with cwd(d):
+                r = CliRunner().invoke(extract_main, args + (["-h"] if hide else []))
+            if r.exit_code != 0:
+                ctx.violation(f"cij extract {' '.join(args)} failed on a {nt} x {npp} table: {r.exception!r}", {"grid": [nt, npp]}, {"mode": mode, "clause": "raises"})
+                continue
+            lines = [l for l in r.output.splitlines() if l.strip()]
+            body = lines[(0 if hide else 1):]
+            labels = pv if mode == "T" else tv
+            want = [1e6 + 1e3 * (it + 1) + (j + 1) for j in range(npp)] if mode == "T" else [1e6 + 1e3 * (i + 1) + (ip + 1) for i in range(nt)]
+            ok = len(body) == len(labels)
+            if ok:
+                for l, lab, w in zip(body, labels, want):
+                    f = l.split()
+                    try:
+                        ok = ok and len(f) == 2 and abs(float(f[0]) - lab) <= 1e-9 and abs(float(f[1]) - w) <= 1e-6 * w
+                    except ValueError:
+                        ok = False
+            if not ok:
+                ctx.violation(f"cij extract {' '.join(args)}{' -h' if hide else ''} on a {nt} x {npp} table prints {len(body)} rows "
+                              f"(first: {body[:1]}, middle: {body[len(body) // 2:len(body) // 2 + 1]}); expected the {len(labels)} entries of the row/column",
+                              {"grid": [nt, npp], "output": r.output[:2000]}, {"mode": mode, "clause": "value", "long": True})
 
 
 def geotherm(ctx, rng, tmp, geo_main):
@@ -139,16 +175,20 @@ def geotherm(ctx, rng, tmp, geo_main):
         P = [pv[j] for _, j in nodes] + list(offp)
         T = [tv[i] for i, _ in nodes] + list(offt)
         depth = [100.0 + 7.0 * k for k in range(len(P))]
-        gt = ["P T D"] + [f"{p!r} {t!r} {dd!r}" for p, t, dd in zip(map(float, P), map(float, T), depth)]
+        # column names: the defaults (P, T), or other names announced with the options as documented in the command's help
+        # (--t-col: "name of geotherm pressure column", --p-col: "name of geotherm temperature column")
+        pname, tname = ("P", "T") if res_i == 0 else ("pressure_GPa", "temperature_K")
+        gt = [f"{pname} {tname} D"] + [f"{p!r} {t!r} {dd!r}" for p, t, dd in zip(map(float, P), map(float, T), depth)]
         (d / "geotherm.txt").write_text("\n".join(gt) + "\n")
-        ctx.count({"geotherm": [nt, npp]})
+        ctx.count({"geotherm": [nt, npp], "columns": [pname, tname]})
+        opts = [] if res_i == 0 else ["--t-col", pname, "--p-col", tname]
         with cwd(d):
-            r = CliRunner().invoke(geo_main, ["-g", "geotherm.txt", "-v", "c11s,G_VRH"])
+            r = CliRunner().invoke(geo_main, ["-g", "geotherm.txt", *opts, "-v", "c11s,G_VRH"])
         if r.exit_code != 0:
             ctx.violation(f"cij extract-geotherm failed: {r.exception!r}", {"grid": [nt, npp]}, {"clause": "geotherm_raises"})
             return
         rows = parse_out(r.output)
-        if rows[0] != ["P", "T", "D", "c11s", "G_VRH"] or len(rows) != len(P) + 1:
+        if rows[0] != [pname, tname, "D", "c11s", "G_VRH"] or len(rows) != len(P) + 1:
             ctx.violation(f"extract-geotherm output columns {rows[0]} / {len(rows)-1} rows", {"output": r.output}, {"clause": "geotherm_shape"})
             return
         vals = numpy.array([[float(x) for x in row] for row in rows[1:]])
